@@ -59,9 +59,17 @@ func main() {
 	}
 	fs.Parse(args)
 	rest = append(rest, fs.Args()...)
-	if t := os.Getenv("VERIF_TIER"); t == "quick" || t == "thorough" {
+	tierGiven := false
+	fs.Visit(func(f *flag.Flag) {
+		if f.Name == "tier" {
+			tierGiven = true
+		}
+	})
+	// the registered commands name their tier; the environment variable decides only for a command line that does not
+	if t := os.Getenv("VERIF_TIER"); !tierGiven && (t == "quick" || t == "thorough") {
 		*tier = t
 	}
+	crossCheck = *tier == "thorough"
 	if s := os.Getenv("VERIF_SEED"); s != "" {
 		if n, err := strconv.Atoi(s); err == nil {
 			solverSeed = n
